@@ -139,10 +139,116 @@ def scen_handle():
     return bad
 
 
+class Thing:
+    def __init__(self):
+        self.calls = []
+
+    def value(self, x):
+        self.calls.append(('value', x))
+        return ('the value', x)
+
+    def boom(self):
+        self.calls.append(('boom',))
+        raise LookupError('from the referent')
+
+    def secret(self):
+        self.calls.append(('secret',))
+        return 'must not be reachable'
+
+
+class Wire:
+    """a scripted connection for serve_client: requests, then end of stream"""
+    def __init__(self, requests, fail_first_send_of=()):
+        self.requests, self.sent, self.fail = list(requests), [], set(fail_first_send_of)
+        self.n = 0
+        self.closed = 0
+
+    def recv(self):
+        if not self.requests:
+            raise EOFError
+        self.n += 1
+        return self.requests.pop(0)
+
+    def send(self, m):
+        if self.n in self.fail:
+            self.fail.discard(self.n)
+            raise TypeError('cannot pickle')
+        self.sent.append((self.n, m))
+
+    def close(self):
+        self.closed += 1
+
+
+def scen_serve():
+    bad = []
+    s = mkserver()
+    s.stop_event = threading.Event()
+    t = Thing()
+    s.id_to_obj['t'] = (t, {'value', 'boom'}, {})
+    s.id_to_refcount['t'] = 1
+    reqs = [('t', 'value', (7,), {}), ('t', 'boom', (), {}), ('t', 'secret', (), {}), ('nope', 'value', (1,), {}),
+            ('t', '__repr__', (), {}), 'malformed', ('t', 'value', (8,), {}), ('t', 'value', (9,), {})]
+    w = Wire(reqs, fail_first_send_of=(7,))
+    try:
+        s.serve_client(w)
+        bad.append('serve_client returned although the stream ended (expected SystemExit)')
+    except SystemExit as e:
+        if e.code not in (0, None):
+            bad.append('serve_client left with exit status %r at end of stream' % (e.code,))
+    if ('secret',) in t.calls:
+        bad.append('a method that is not exposed was run on the referent')
+    answers = {}
+    for n, m in w.sent:
+        answers.setdefault(n, []).append(m)
+    if sorted(answers) != list(range(1, len(reqs) + 1)) or any(len(v) != 1 for v in answers.values()):
+        bad.append('requests 1..%d were answered %r times' % (len(reqs), {n: len(v) for n, v in answers.items()}))
+        return bad
+    a = {n: v[0] for n, v in answers.items()}
+    if a[1] != ('#RETURN', ('the value', 7)):
+        bad.append('value(7) was answered with %r' % (a[1],))
+    if a[2][0] != '#ERROR' or not isinstance(a[2][1], LookupError) or a[2][1].args != ('from the referent',):
+        bad.append('the exception raised by the referent was answered with %r' % (a[2],))
+    if a[3][0] != '#TRACEBACK' or a[4][0] != '#TRACEBACK' or a[6][0] != '#TRACEBACK':
+        bad.append('unexposed method / unknown object / malformed request were answered with %r, %r, %r' % (a[3][0], a[4][0], a[6][0]))
+    if a[5] != ('#RETURN', repr(t)):
+        bad.append('__repr__ (served by the server itself) was answered with %r' % (a[5],))
+    if a[7][0] != '#UNSERIALIZABLE':
+        bad.append('an answer that could not be sent was followed by %r' % (a[7],))
+    if a[8] != ('#RETURN', ('the value', 9)):
+        bad.append('the request after an unserialisable answer was answered with %r' % (a[8],))
+    if t.calls != [('value', 7), ('boom',), ('value', 8), ('value', 9)]:
+        bad.append('calls made on the referent: %r' % (t.calls,))
+    # the client side
+    err = LookupError('x')
+    for kind, body, want in (('#RETURN', 41, ('return', 41)), ('#ERROR', err, ('raise', err)),
+                             ('#TRACEBACK', 'tb', ('raise', M.RemoteError)), ('#UNSERIALIZABLE', 'r', ('raise', M.RemoteError)),
+                             ('#WHAT', None, ('raise', ValueError))):
+        class C:
+            def send(self, m):
+                self.m = m
+
+            def recv(self):
+                return kind, body
+        c = C()
+        try:
+            got = ('return', M.dispatch(c, 'id', 'meth', (1,), {'k': 2}))
+        except Exception as e:      # noqa
+            got = ('raise', e)
+        ok = (got == want) if want[0] == 'return' or not isinstance(want[1], type) else \
+            (got[0] == 'raise' and type(got[1]) is want[1])
+        if want[0] == 'raise' and not isinstance(want[1], type):
+            ok = got[0] == 'raise' and got[1] is want[1]
+        if not ok:
+            bad.append('dispatch on answer %r: %r' % (kind, got))
+        if getattr(c, 'm', None) != ('id', 'meth', (1,), {'k': 2}):
+            bad.append('dispatch sent %r' % (getattr(c, 'm', None),))
+    return bad
+
+
 def main():
     data = json.load(open(sys.argv[1]))
     print('replay of %s / %s' % (data['function'], data['obligation']))
-    bad = scen_tables() + scen_handle()
+    bad = scen_tables() + scen_handle() + scen_serve()
     for b in bad[:8]:
         print('  violation on real code: ' + b)
     print('REPRODUCED on real code' if bad else 'not reproduced')
